@@ -6,11 +6,12 @@ import JoblibModel.IOUtil
 Requests
 * `hist ORDER FIRSTLINE SRC0 SRC1 | PROC | PROC | …` — a sequential history of processes on an initially empty scratch
   directory. `ORDER` = kernel directory-entry order (comma-separated names, `-` = none), `SRCk` = source text of version
-  k (hex, `-` = empty). `PROC` = `call:a=3,ver=0,cb=none|long|now,shelve=0|1,me=0,legacy=0|1[,compress=1][,kill=K[,torn=N]]`
+  k (hex, `-` = empty). `PROC` = `call:a=3,ver=0,cb=none|long|now|since<g>,shelve=0|1,me=0,legacy=0|1[,compress=1][,gen=G][,kill=K[,torn=N]]`
+  (`gen` = the generation the process lives in, 0 when absent; `since<g>` = valid iff the entry's stamp is of generation ≥ g)
   | `reduce:me=0,victims=4.5[,kill=K]` | `clear:me=0[,kill=K]`; `kill=K` = SIGKILL after K system calls (the K-th torn
   to N bytes when it is a write).
   Reply: `LOG => OUTCOME | LOG => OUTCOME | …`, `LOG` = `op;op;…` in the syntax of harness/fstrace.py,
-  `OUTCOME` = `ok v<ver>.<arg>` | `ok done` | `raise <ExceptionClass>` | `killed`.
+  `OUTCOME` = `ok v<ver>.<arg>[@<gen>]` (`@<gen>` for a value of a generation other than 0) | `ok done` | `raise <ExceptionClass>` | `killed`.
 * `code SRC CONTENT` — `_check_previous_func_code`'s reading of `CONTENT` against live source `SRC` (first line 1):
   `same` | `differs` | `valueError`.
 Anything else: `bad-op`. -/
